@@ -19,7 +19,8 @@ def run(facts, tier):
         "(only local part and namespace URI are); C10-2 the key of the default namespace (\"xmlns\") is not used to resolve an "
         "unprefixed *attribute* (it is for elements); C10-3 shape of XmlElement::in_scope_namespace: own declarations first, "
         "inherited ones only for prefixes not declared locally, the implicit xml binding at the document element, empty URIs "
-        "dropped after merging; C10-4 ordered choice of attribute / ns_att_name (R01-2).")
+        "dropped after merging; C10-4 ordered choice of attribute / ns_att_name (R01-2); C10-5 writer and readers of the "
+        "evaluation context's prefix bindings agree (replace-on-write or newest-first lookup).")
     res.assumptions = ["expanded names as values and renaming invariance beyond C10-1 are not computed"]
     # ---- C10-1
     st = res.rule("C10-1", instances=0)
@@ -129,8 +130,72 @@ def run(facts, tier):
                 raise BrokenCheck("grammar: %s" % u)
     e2.ordered_choice(facts, ex, res, "R01-2", lambda fn: fn["path"] in ("xml_parser::attribute", "xml_parser::ns_att_name", "xml_parser::att_def"),
                       c01.ORDERED_CHOICE_REASONS)
+    c10_5(facts, res)
     res.functions_analysed = 8
     return res
+
+
+def _on_field(n, field):
+    """Is the receiver chain of method call n rooted at self.<field>?  -> list of method names (outermost first) or None."""
+    chain = []
+    while isinstance(n, dict) and n.get("k") == "MethodCall":
+        chain.append(n["m"])
+        n = n.get("recv")
+    while isinstance(n, dict) and n.get("k") in ("AddrOf", "Deref", "Borrow"):
+        n = n.get("e") or n.get("a")
+    if isinstance(n, dict) and n.get("k") == "Field" and n.get("name") == field and n["a"].get("name") == "self":
+        return chain
+    return None
+
+
+def c10_5(facts, res):
+    """The caller's prefix bindings are a *function* prefix -> namespace name.  The store is a Vec of pairs, so writer and
+    readers must agree: either every writer removes the old pair of that prefix before it appends (retain(|v| v.0 != prefix);
+    push), or every reader takes the newest pair (rev().find / rfind).  Append-only writer + first-match reader = the first
+    binding of a prefix can never be changed."""
+    import guards
+    st = res.rule("C10-5", instances=0)
+    writers, readers = [], []
+    for f in facts.fns.values():
+        if f["crate"] != "xml_xpath" or "body" not in f or "Context::" not in f["path"]:
+            continue
+        seq = [n for n, _ in guards.ordered(f["body"])]
+        for i, n in enumerate(seq):
+            if n.get("k") != "MethodCall":
+                continue
+            ch = _on_field(n, "namespaces")
+            if ch is None:
+                continue
+            if ch[0] in ("push", "insert", "extend", "push_back"):
+                removed = False
+                for m in seq[:i]:
+                    c2 = _on_field(m, "namespaces") if m.get("k") == "MethodCall" else None
+                    if c2 and c2[0] == "retain" and m["args"] and m["args"][0].get("k") == "Closure":
+                        body = m["args"][0]["body"]
+                        ops = [x.get("op") for x in walk(body) if x.get("k") == "Binary"]
+                        touches_key = any(x.get("k") == "Field" and str(x.get("name")) == "0" for x in walk(body))
+                        if ops == ["!="] and touches_key:
+                            removed = True
+                writers.append((f, n, removed))
+            if ch[0] in ("find", "position", "find_map", "rfind", "rposition", "last", "first", "next"):
+                newest = ch[0] in ("rfind", "rposition", "last") or "rev" in ch
+                readers.append((f, n, newest))
+    if not writers or len(readers) < 3:
+        raise BrokenCheck("C10-5: %d writers / %d readers of Context.namespaces (floor 1 / 3)" % (len(writers), len(readers)))
+    st["instances"] = len(writers) + len(readers)
+    st["writers"] = len(writers)
+    st["readers"] = len(readers)
+    all_replace = all(r for _, _, r in writers)
+    all_newest = all(r for _, _, r in readers)
+    ok = all_replace or all_newest
+    res.oblige(st["instances"], ok)
+    res.sample({"rule": "C10-5", "writers": [(f["path"], r) for f, _, r in writers], "readers": [(f["path"], r) for f, _, r in readers]}, limit=40)
+    if not ok:
+        for f, n, r in writers:
+            if not r:
+                res.add(Finding("C10-5", f["path"].split("::")[-1] + "|append-only", "%s appends a binding without removing the older pair of the same "
+                                "prefix, while %s take the first match: re-binding a prefix has no effect"
+                                % (f["path"], sorted({g["path"].split("::")[-1] for g, _, nw in readers if not nw})), f["file"], n.get("ln"), {}))
 
 
 def e1_reach(succ, start):
